@@ -29,6 +29,9 @@ never a hidden assumption):
     TRANSLATION TIME to the object they point to: `&local`, `&(m->member)`, or a pointer local that was assigned one of
     these at the top level of the function (`p_uid = (uid_t *) &(m->client_uid);`); pointer casts are dropped (the
     pointed-to member's own type, from m_msg.h, decides the stored width).  Any other pointer use fails the generation.
+  * dec_validate_replay reads the clock a SECOND time (after replay_insert): the same `clk` parameter convention, so the
+    generated src_dec_validate_replay takes the clock reading AT THE REPLAY STEP (the model's now2), independent of the
+    reading dec_timestamp stored in m->time1.
   * replay_insert (c): its result is the parameter `ins : Z` (0 inserted, > 0 already there, < 0 failure); `errno` after
     it is the parameter `errno_ : Z`; ENOMEM is 12 (Linux).
   * c->MEMBER for an integer member of struct munge_cred (types read from cred.h; today: is_replay_new) is a state bit of
@@ -834,7 +837,7 @@ def gen(api):
                 translate(esrc, "enc_authenticate", mt, env=["auth_recv"]),
                 translate(dsrc, "dec_check_retry", mt),
                 translate(esrc, "enc_check_retry", mt),
-                translate(dsrc, "dec_validate_replay", mt, env=["replay_insert", "errno"], credtypes=ct, cred=["is_replay_new"]),
+                translate(dsrc, "dec_validate_replay", mt, env=["time", "replay_insert", "errno"], credtypes=ct, cred=["is_replay_new"]),
                 translate(dsrc, "dec_process_msg", mt, mode="pipe", credtypes=ct),
                 translate(esrc, "enc_process_msg", mt, mode="pipe", credtypes=ct)]
     except (TErr, OSError, IndexError) as e:
